@@ -3,8 +3,11 @@
 use crate::engine::{Ctx, Tier};
 use serde_json::Value;
 
+pub mod c01;
 pub mod c03;
 pub mod c06;
+pub mod c10;
+pub mod tunnelreq;
 pub mod c11;
 
 pub struct PropDef {
@@ -21,10 +24,24 @@ fn w16(_: Tier) -> u32 {
 
 pub static PROPS: &[PropDef] = &[
     PropDef {
+        id: "C01",
+        level: "exploration",
+        run: c01::run,
+        replay: c01::replay,
+        workers: w16,
+    },
+    PropDef {
         id: "C03",
         level: "exploration",
         run: c03::run,
         replay: c03::replay,
+        workers: w16,
+    },
+    PropDef {
+        id: "C10",
+        level: "fault_enumeration",
+        run: c10::run,
+        replay: c10::replay,
         workers: w16,
     },
     PropDef {
